@@ -8,7 +8,7 @@ from harness.props import c01 as B
 
 ID = "C04"
 ENTRY = "SearchArray.score(query, similarity=...)"
-LEVEL = "other"
+LEVEL = "proof"
 RULE = ("corpora incl. all-empty corpora, empty documents, N = 1, terms in every document; single-term and distinct-term "
         "phrase queries; default BM25, parameterised BM25 over a (k1, b) grid incl. extreme values, the legacy variant and "
         "a recording similarity (statistics handed over). Scores are compared as float32 BIT PATTERNS with the Flocq "
